@@ -89,6 +89,46 @@ pub fn leaf_perturbations(i: &Integer) -> Vec<(&'static str, Integer)> {
     v
 }
 
+/// +1 / -1 / zero plus, for every modulus the recipient knows, the same residue class with another representative (v + N).
+pub fn leaf_perturbations_mod(i: &Integer, moduli: &[(&str, &Integer)]) -> Vec<(String, Integer)> {
+    let mut v: Vec<(String, Integer)> = leaf_perturbations(i).into_iter().map(|(a, b)| (a.to_string(), b)).collect();
+    for (nm, n) in moduli { v.push((format!("+{}", nm), i.clone() + *n)); }
+    v
+}
+
+/// Sign-flip exploration. For every group-element leaf v (0 < v < N) of a serialized proof the edit v := N - v is tried on a POOL of
+/// honest proofs of the same shape until one of them still verifies: whether a negated element passes depends on the parity of the
+/// exponents it is raised to, which is random per proof, so the search is existential over the pool (a miss has probability
+/// <= (3/4)^|pool| for the elements that can pass at all). Returns, per leaf path, the index of the first proof that accepted.
+pub fn sign_flip_search(pool: &[Value], n: &Integer, verify: &(dyn Fn(usize, &Value) -> O<bool> + Sync)) -> Vec<(Vec<String>, Option<usize>, usize)> {
+    let leaves: Vec<Vec<String>> = mccore::int_leaf_paths(&pool[0]).into_iter().filter(|p| { let v = leaf_int(mccore::json_get(&pool[0], p).unwrap()).unwrap(); v > 0 && v < *n && v.significant_bits() + 32 >= n.significant_bits() }).collect();
+    let out = std::sync::Mutex::new(Vec::new());
+    mccore::par_for(&leaves, |_, path| {
+        let mut hit = None; let mut tried = 0;
+        for (k, pr) in pool.iter().enumerate() {
+            let v = match mccore::json_get(pr, path).and_then(leaf_int) { Some(v) => v, None => continue };
+            if !(v > 0 && v < *n) { continue; }
+            let mut x = pr.clone(); mccore::json_set(&mut x, path, int_leaf(&(n.clone() - &v)));
+            tried += 1;
+            if accepted(&verify(k, &x)) { hit = Some(k); break; }
+        }
+        out.lock().unwrap().push((path.clone(), hit, tried));
+    });
+    let mut v = out.into_inner().unwrap(); v.sort(); v
+}
+
+pub fn report_sign_flips(env: &Env, root: &str, what: &str, res: &[(Vec<String>, Option<usize>, usize)], pool: usize, det: Value) {
+    for (path, hit, tried) in res {
+        env.ctx.state(&[root.as_bytes(), b"sign-flip", path.join("/").as_bytes()]);
+        env.ctx.steps(*tried as u64);
+        if let Some(k) = hit {
+            env.ctx.violation(&format!("{}:sign-flip:/{}:accepted", env.ctx.prop, mccore::path_class(path)), &format!("{}: the group element /{} replaced by its negation (N - v) still verifies (found on proof #{} of a pool of {})", what, path.join("/"), k, pool), env.case(root, json!({"base": det, "leaf": path.join("/"), "edit": "v := N - v", "pool": pool})));
+            env.ctx.class("sign-flip:accepted");
+        } else { env.ctx.class("sign-flip:rejected on the whole pool"); }
+        env.ctx.trace();
+    }
+}
+
 pub fn sd(x: &Integer) -> String { let s = x.to_string_radix(16); if s.len() > 40 { format!("{}..({} hex digits)", &s[..24], s.len()) } else { s } }
 
 /// expectation helper for boolean verifiers
